@@ -428,7 +428,8 @@ func c13Overlap(k int) string {
 		}
 		answer(w, r)
 	}
-	sut, err := startServer(allRoutes(h, startTLSHandler(srvTLS, 0, 0), nil), nil, nil)
+	// (with generous timeouts configured: code that only runs when they are set runs here too)
+	sut, err := startServer(allRoutes(h, startTLSHandler(srvTLS, 0, 0), nil), nil, nil, gldap.WithWriteTimeout(40*time.Second), gldap.WithReadTimeout(40*time.Second))
 	if err != nil {
 		return "harness-error start: " + err.Error()
 	}
